@@ -999,8 +999,11 @@ fn cases26(window: i64, free_running: u64, rounds: u32) -> Vec<Case26> {
     let mut out = vec![];
     for &(g_name, g_ns, unit_ns) in GRANULARITIES26 {
         for t_write in 0..window {
-            for t_save in t_write..window {
-                for t_edit in t_save..window {
+            // t_save < t_write is included: the state file may look OLDER than
+            // the recorded file mtime (clock stepped back, timestamps set by a
+            // tool, or a state that is snapshotted again without a reload).
+            for t_save in 0..window {
+                for t_edit in t_write.max(t_save)..window {
                     for previously_tracked in [false, true] {
                         out.push(Case26::Forced { g_name, g_ns, unit_ns, t_write, t_save, t_edit, previously_tracked });
                     }
@@ -1138,7 +1141,8 @@ pub fn run_c26(ctx: &Ctx) -> i32 {
     let rounds = ctx.tier().pick(25, 200);
     ctx.set_rule(
         "Forced timestamps: for each granularity g (1 ms, 10 ms, 1 s, 2 s, and unfloored sub-ms steps) and every \
-         integer triple t_write <= t_save <= t_edit in the window (unit g/2, so every equality/ordering pattern \
+         integer triple with t_write <= t_edit and t_save <= t_edit in the window (t_save before, at or after \
+         t_write; unit g/2, so every equality/ordering pattern \
          of the floored values occurs), for a new and for a previously tracked file: force the file mtime to \
          floor_g(t_write) and snapshot (the recorded FileState mtime is read back and must equal the forced \
          value), force the tree_state file's mtime to floor_g(t_save), rewrite the file in place with different \
@@ -1152,7 +1156,7 @@ pub fn run_c26(ctx: &Ctx) -> i32 {
     ctx.set_extra(
         "window",
         json!({
-            "offsets": format!("0..{window} (inclusive lower, exclusive upper), all t_write <= t_save <= t_edit"),
+            "offsets": format!("0..{window} (inclusive lower, exclusive upper), all triples with t_write <= t_edit and t_save <= t_edit"),
             "granularities": GRANULARITIES26.iter().map(|(n, g, u)| json!({"name": n, "granularity_ns": g, "unit_ns": u})).collect::<Vec<_>>(),
             "file_variants": ["new at recording snapshot", "previously tracked"],
             "forced_cases": n_forced,
